@@ -25,6 +25,10 @@ SEMANTIC = [
     "could not prove termination",
     "unable to prove assertion safety condition",
     "failed precondition",
+    "unable to prove post-condition of closure",
+    "unable to prove pre-condition of closure",
+    "index out of bounds",
+    "possible overflow",
 ]
 NONSEMANTIC_HINT = ["rlimit", "resource limit", "not supported", "unsupported", "E0", "internal"]
 
